@@ -327,6 +327,27 @@ def r_iso( ctx ):
                     res.bad( src, srcs[0][0], 'source = rememberable() outside the UDP receive loop', 'bytes left over from one peer\'s datagram are prepended to the next peer\'s request' )
         else:
             res.bad( src, fn, '%s source' % qn, 'each connection needs its own input source' )
+        if qn == 'enip_srv_udp':
+            # ... and a connectionless peer KEEPS its entry: every stats_for call of the UDP server - the one in a log line included - resolves,
+            # keyword or default, to "not fresh".  A fresh entry per datagram forgets the eof an operator set for that peer, and evicts the
+            # entry of a live TCP session from the same address
+            from .fold import try_fold as _tf
+            sf_ = src.get( 'stats_for' )
+            names_ = [ a.arg for a in sf_.args.args ]
+            dflt_ = dict( zip( reversed( names_ ), [ _tf( d_, default='?' ) for d_ in reversed( sf_.args.defaults ) ] ))
+            FRESH = [ n_ for n_ in names_[1:] if n_ in dflt_ ]
+            for c_ in [ c for c in ast.walk( fn ) if is_call_to( c, 'stats_for' ) ]:
+                kw_ = { k.arg: k.value for k in c_.keywords if k.arg }
+                eff = {}
+                for i_, pn in enumerate( names_[1:], start=1 ):
+                    v_ = kw_.get( pn, c_.args[i_] if len( c_.args ) > i_ else None )
+                    eff[pn] = _tf( v_, default='?' ) if v_ is not None else dflt_.get( pn, '?' )
+                fresh_ = [ pn for pn in FRESH if eff.get( pn ) not in ( False, None, 0 ) ]
+                if fresh_:
+                    res.bad( src, c_, 'enip_srv_udp: `%s` asks for a fresh entry ( %s = %r )' % ( norm_text( c_ ), fresh_[0], eff[fresh_[0]] ),
+                             'every datagram replaces the peer\'s entry in the connections table: a peer an operator ended ( eof ) is served again, and a datagram from the ip:port of a live TCP session evicts that session\'s entry' )
+                else:
+                    res.ok( src, c_, 'enip_srv_udp: `%s` keeps the peer\'s entry' % norm_text( c_ ))
         if qn == 'enip_srv_tcp':
             # the record through which a connection is told to end ( stats.eof ) is the connection's own: a TCP connection asks stats_for for a
             # FRESH entry, and stats_for does not consult the table of live connections then.  Handed the entry of an earlier connection
